@@ -35,8 +35,8 @@ def run(ctx):
     for line in g.out.splitlines():
         if line.startswith('<<"HIST", '):
             stim.append({"kinds": json.loads(json.loads(line[len('<<"HIST", '):-2]))})
-    all_kinds = ["plainOK", "plainCancel", "plainExpire", "plainRst", "dupToken", "bwUpOK", "bwUpCancel", "bwUpRefused", "bwDownOK", "bwDownAbandon", "obsOK", "obsCancel",
-                 "obsFail", "obsSilentCancel", "pingOK", "pingCancel", "oneWay", "srvReq", "srvReqNon", "srvReqNoResp", "srvBwUpAbandon", "srvBwDownAbandon", "tickEarly", "tickBw", "tickLate"]
+    all_kinds = ["plainOK", "plainSepCon", "plainCancel", "plainExpire", "plainRst", "dupToken", "bwUpOK", "bwUpCancel", "bwUpRefused", "bwDownOK", "bwDownAbandon", "obsOK", "obsCancel",
+                 "obsFail", "obsSilentCancel", "pingOK", "pingCancel", "oneWay", "srvReq", "srvReqNon", "srvReqNoResp", "srvReqHijack", "srvBwUpAbandon", "srvBwDownAbandon", "tickEarly", "tickBw", "tickLate"]
     stim.append({"kinds": all_kinds})
     spath = os.path.join(ctx.work, "stimuli.ndjson")
     vf.write_ndjson(spath, stim)
@@ -47,13 +47,17 @@ def run(ctx):
     one = os.path.join(ctx.work, "one.ndjson")
     vf.write_ndjson(one, [{"kinds": all_kinds}])
     out2 = os.path.join(ctx.work, "traces-race.ndjson")
-    rc, so, se = vf.drv(ctx, ["c12", one, out2], timeout=2400, race=True, ok_codes=(0, 66))
+    # (no tracker in this pass - its mutex would order the very accesses the detector looks for - and the application
+    #  releases every response at once)
+    vf.write_ndjson(one, [{"kinds": all_kinds}] * (6 if thorough else 2))
+    rc, so, se = vf.drv(ctx, ["c12", one, out2], timeout=2400, race=True, ok_codes=(0, 66), env_extra={"VERIF_NOTRACK": "1", "GORACE": "halt_on_error=0 exitcode=66"})
     if rc == 66 or "DATA RACE" in se:
         first = [l.strip() for l in se[se.find("DATA RACE"):].splitlines()[1:12] if "/repo/" in l][:4]
         vf.report(ctx, "C12_RaceFree", {"detector": "go -race", "frames": first},
                   "the Go race detector reported a data race while pooled messages were in use concurrently: %s" % first,
                   {"stderr": se[:8000], "cmd": "bin/check C12"})
-    traces += vf.read_ndjson(out2) if os.path.exists(out2) else []
+    nrace = len(vf.read_ndjson(out2)) if os.path.exists(out2) else 0       # (no pool events in that pass: nothing for TLC there)
+    ctx.cov["runs_under_race_detector"] = nrace
     bad, gen, dist = vf.judge_records(ctx, "pool", "RecC12", "RecC12.cfg", traces, shards=8, timeout=2400)
     ctx.add("states", dist)
     ctx.add("transitions", gen)
